@@ -186,7 +186,7 @@ func (c *Ctx) obNever(what string, f *ssa.Function, trig func(ssa.Instruction) b
 					_ = d
 					return false
 				}
-				return hasAny(s.InstrMay(in), forbid...)
+				return c.mayForbidFirst(in, forbid, disch, 0)
 			},
 			SkipEdge: skip,
 		})
@@ -367,4 +367,86 @@ func (c *Ctx) obNeverH(what string, f *ssa.Function, trig func(ssa.Instruction) 
 		}
 		c.R.Ob(c.siteKey(t, what), c.P.InstrPos(t), len(real) == 0, d)
 	}
+}
+
+// mayForbidFirst: can executing in produce a forbidden label BEFORE it has
+// produced a discharging one? For calls into the package the callee is
+// analysed with the rule pending at its entry, so a helper that discharges
+// first and only then performs the event (e.g. drain(): limited=false; copy)
+// does not alarm.
+func (c *Ctx) mayForbidFirst(in ssa.Instruction, forbid, disch []string, depth int) bool {
+	ev, s := c.Std()
+	for _, l := range ev.Label(in) {
+		for _, f := range forbid {
+			if l == f || strings.HasSuffix(f, ":") && strings.HasPrefix(l, f) {
+				return true
+			}
+		}
+	}
+	if _, isGo := in.(*ssa.Go); isGo {
+		return false
+	}
+	cc := callCommon(in)
+	if cc == nil {
+		return false
+	}
+	g := staticCallee(cc)
+	if g == nil || !inSmtp(g) || g.Blocks == nil {
+		return false
+	}
+	if !hasAny(s.May(g), forbid...) {
+		// prefix labels such as "go:" need a scan
+		pref := false
+		for _, f := range forbid {
+			if strings.HasSuffix(f, ":") {
+				for l := range s.May(g) {
+					if strings.HasPrefix(l, f) {
+						pref = true
+					}
+				}
+			}
+		}
+		if !pref {
+			return false
+		}
+	}
+	if depth > 3 || len(disch) == 0 {
+		return true
+	}
+	v := RunPend(g, PendRule{
+		StartPending: true,
+		Trig:         func(ssa.Instruction) bool { return false },
+		Disch:        c.mustDo(disch...),
+		Forbid: func(x ssa.Instruction) bool {
+			if _, ok := x.(*ssa.Defer); ok {
+				return false
+			}
+			return c.mayForbidFirst(x, forbid, disch, depth+1)
+		},
+	})
+	return len(v) > 0
+}
+
+// seenBeforeLifted: one of the labels has certainly occurred before site, in
+// its own function or - when the function is a helper - before every call of
+// that helper (recursively).
+func (c *Ctx) seenBeforeLifted(site ssa.Instruction, depth int, labels ...string) bool {
+	_, s := c.Std()
+	if hasAny(s.SeenBefore(site), labels...) {
+		return true
+	}
+	f := site.Parent()
+	if depth > 3 || (f.Parent() == nil && isExported(f)) {
+		return false
+	}
+	callers := c.callersOf(f)
+	if len(callers) == 0 {
+		return false
+	}
+	for _, cs := range callers {
+		if !c.seenBeforeLifted(cs, depth+1, labels...) {
+			return false
+		}
+	}
+	return true
 }
